@@ -27,7 +27,7 @@ CHECKS = {
     },
 }
 
-MUX0 = [G + "mux_run.go", G + "mux_stubs.go"]
+MUX0 = [G + "mux_run.go", G + "mux_stubs.go", "rt/fs_model.go"]
 MUX = MUX0 + [G + "mux_stub_findcompat.go"]
 MUX_STUBS = [
     "mediacommon boundary stubbed (trusted: its Marshal/Unmarshal are mutually inverse): fmp4.Part/Init.Marshal+Unmarshal, PartSample.FillH264, "
@@ -39,18 +39,22 @@ MUX_STUBS = [
 ]
 
 
-def mux_runs(quick_k=(4, 4, 3, 4), thorough_k=(6, 6, 4, 5)):
+def mux_runs():
     def run(name, variant, tracks, kq, kt, reach, **extra):
         r = {"name": name, "files": MUX, "fn": "VerifH_mux_run", "workers": 16,
              "params": {"VARIANT": variant, "TRACKS": tracks}, "params_quick": {"K": kq}, "params_thorough": {"K": kt},
              "reach": reach, "budget_quick": 900, "budget_thorough": 7200}
         r["params"].update(extra)
         return r
+    std = ["end", "cut", "observe", "decode-segment"]
     return [
-        run("run.mux.fmp4.video", 2, 0, quick_k[0], thorough_k[0], ["end", "cut", "observe", "decode-segment", "init-after-change"]),
-        run("run.mux.ts.video", 1, 0, quick_k[1], thorough_k[1], ["end", "cut", "observe", "decode-segment"]),
-        run("run.mux.ll.video", 3, 0, quick_k[2], thorough_k[2], ["end", "cut", "observe", "decode-segment"]),
-        run("run.mux.fmp4.video+audio", 2, 1, quick_k[3], thorough_k[3], ["end", "cut", "observe", "decode-segment"]),
+        run("run.mux.fmp4.video", 2, 0, 4, 6, std + ["init-after-change"], VKINDS=5),
+        run("run.mux.ts.video", 1, 0, 5, 6, std, VKINDS=4),
+        run("run.mux.ll.video", 3, 0, 3, 4, std, VKINDS=3),
+        run("run.mux.fmp4.video+audio", 2, 1, 4, 5, std, VKINDS=3),
+        # window sliding several times, Directory storage, Close at the end: key frames only
+        run("run.mux.ts.slide.disk", 1, 0, 6, 9, std, VKINDS=1, DISK=1, CLOSE_AT_END=1),
+        run("run.mux.fmp4.slide.disk", 2, 0, 7, 10, std, VKINDS=1, DISK=1, CLOSE_AT_END=1),
     ]
 
 
@@ -94,7 +98,7 @@ CHECKS["C06"] = {
     ],
 }
 
-C07F = [G + "c07_close.go", G + "c06_reload.go", "rt/fs_model.go"] + MUX
+C07F = [G + "c07_close.go", G + "c06_reload.go"] + MUX
 
 
 def c07run(name, variant, disk, kq, kt):
@@ -109,7 +113,7 @@ CHECKS["C07"] = {
                "thorough": {"writes before Close": "0..K, K=4", "pending requests": "1..2 of 4 kinds", "preemptions": 3}},
     "assumptions": MUX_STUBS + ["preemption only at synchronisation points", "os.Create/Open/Remove and *os.File methods replaced by an in-harness POSIX-like file system"],
     "outside": ["wall-clock promptness", "OS-level removal semantics", "more than two pending requests"],
-    "runs": [c07run("conc.close.ll", 3, 0, 2, 4), c07run("conc.close.fmp4.disk", 2, 1, 3, 4), c07run("conc.close.ts.disk", 1, 1, 2, 4)],
+    "runs": [c07run("conc.close.ll", 3, 0, 2, 4), c07run("conc.close.fmp4.disk", 2, 1, 3, 4), c07run("conc.close.ts.disk", 1, 1, 2, 4)] + [r for r in mux_runs() if "slide" in r["name"]],
 }
 
 S = "storage/"
@@ -309,7 +313,7 @@ CHECKS["C09"] = {
     ],
 }
 
-C08F = [G + "c08_race.go", G + "c06_reload.go", "rt/fs_model.go"] + MUX
+C08F = [G + "c08_race.go", G + "c06_reload.go"] + MUX
 
 
 def c08run(name, variant, disk, kq, kt):
@@ -328,3 +332,8 @@ CHECKS["C08"] = {
     "outside": ["races between two readers on objects the bounded runs never create", "races the native stress run does not reproduce (listed as unconfirmed candidates in evidence)", "compiler / hardware reordering beyond the Go memory model"],
     "runs": [c08run("conc.race.ll.disk", 3, 1, 3, 4), c08run("conc.race.fmp4.ram", 2, 0, 4, 5), c08run("conc.race.ts.disk", 1, 1, 3, 4)],
 }
+
+TSSTEP = {"name": "step.ts.audio", "files": [G + "c02_step.go"] + MUX, "fn": "VerifH_C02_tsAudioStep", "workers": 16, "params": {"SEGMAXSIZE": 20},
+          "reach": ["cut", "size-limit", "end"]}
+CHECKS["C02"]["runs"] = CHECKS["C02"]["runs"] + [TSSTEP]
+CHECKS["C18"]["runs"] = CHECKS["C18"]["runs"] + [TSSTEP]
